@@ -19,6 +19,7 @@ type RealClient struct {
 	Spec   ClientSpec
 	Addr   *net.UDPAddr
 	sock   *UDPSock
+	tconn  *TCPConn // control connection when the server listens on TCP
 	Cli    *turn.Client
 	Relay  net.PacketConn
 	Err    error
@@ -45,13 +46,30 @@ type writeRec struct {
 func (w *SrvWorld) startRealClient(spec ClientSpec) {
 	rc := &RealClient{W: w, Spec: spec, Addr: mustUDPAddr(spec.Addr)}
 	w.Real[spec.ID] = rc
-	s, err := w.Net.ListenUDP("client", spec.ID, rc.Addr.IP, rc.Addr.Port)
-	if err != nil {
-		Fatalf("real client socket: %v", err)
-	}
-	rc.sock = s
 	cfg := w.P.Cfg
+	var s *UDPSock
+	if cfg.Listener != "tcp" {
+		var err error
+		s, err = w.Net.ListenUDP("client", spec.ID, rc.Addr.IP, rc.Addr.Port)
+		if err != nil {
+			Fatalf("real client socket: %v", err)
+		}
+		rc.sock = s
+	}
 	w.lib("client-start", func() {
+		var base net.PacketConn = s
+		if cfg.Listener == "tcp" {
+			// the client speaks TURN over a stream: its own STUNConn packetiser over simnet TCP
+			<-w.started
+			tc, err := w.Net.Dial("client", &net.TCPAddr{IP: rc.Addr.IP, Port: rc.Addr.Port}, &net.TCPAddr{IP: w.SrvAddr.IP, Port: w.SrvAddr.Port}, 30*time.Second)
+			if err != nil {
+				Fatalf("real client dial: %v", err)
+			}
+			w.e2eMu.Lock()
+			rc.tconn = tc
+			w.e2eMu.Unlock()
+			base = turn.NewSTUNConn(tc)
+		}
 		if spec.User == "@gen" {
 			// time-windowed credentials (C17), generated now with the real generator
 			d := time.Duration(cfg.Extra["cred_dur_s"]) * time.Second
@@ -88,7 +106,7 @@ func (w *SrvWorld) startRealClient(spec ClientSpec) {
 		}
 		c, err := turn.NewClient(&turn.ClientConfig{
 			STUNServerAddr: ustr(w.SrvAddr), TURNServerAddr: ustr(w.SrvAddr), Username: spec.User, Password: spec.Pass, Realm: cfg.Realm,
-			RTO: time.Duration(cfg.RTOms) * time.Millisecond, Conn: s, LoggerFactory: w.LF,
+			RTO: time.Duration(cfg.RTOms) * time.Millisecond, Conn: base, LoggerFactory: w.LF,
 			PermissionRefreshInterval: time.Duration(cfg.Extra["perm_refresh_s"]) * time.Second,
 			Net: &SimTransport{N: w.Net, Role: "client-data", Owner: spec.ID, IP4: rc.Addr.IP, IP6: rc.Addr.IP},
 		})
